@@ -68,7 +68,7 @@ class POSet:
                 if len(elements) < 10:
                     for el_i, subels_i in descendants_dict.items():
                         for el_i_1 in range(len(self._elements)):
-                            leq_dict[(el_i_1, el_i)] = el_i_1 in subels_i
+                            leq_dict[(el_i_1, el_i)] = el_i_1 == el_i or el_i_1 in subels_i
             else:  # if children_dict is None, initialize caches as empty
                 leq_dict, children_dict, descendants_dict, parents_dict, ancestors_dict =\
                     {}, {}, {}, {}, {}
@@ -264,9 +264,9 @@ class POSet:
         key = (a_index, b_index)
         if key in self._cache_leq:
             res = self._cache_leq[key]
-        elif b_index in self._cache_descendants:
+        elif a_index != b_index and b_index in self._cache_descendants:
             res = a_index in self._cache_descendants[b_index]
-        elif a_index in self._cache_ancestors:
+        elif a_index != b_index and a_index in self._cache_ancestors:
             res = b_index in self._cache_ancestors[a_index]
         else:
             res = self._leq_elements_nocache(a_index, b_index)
